@@ -251,7 +251,8 @@ def fuzz_bin(cfg):
 
 
 def run_fuzz(ev, tier):
-    cfgs = [Cfg("asm", 4, 2, 4)] if tier == "quick" else [Cfg("asm", 4, 2, 4), Cfg("c64", 3, 3, 3), Cfg("c32", 2, 1, 2)]
+    # clang's UBSan sees things gcc's does not (e.g. NULL + 0 in C), and each backend has its own byte helpers: c32 is in the quick tier too
+    cfgs = [Cfg("asm", 4, 2, 4), Cfg("c32", 2, 1, 2)] if tier == "quick" else [Cfg("asm", 4, 2, 4), Cfg("c64", 3, 3, 3), Cfg("c32", 2, 1, 2), Cfg("dxor", 4, 4, 4), Cfg("generic", 4, 2, 4)]
     for cfg in cfgs:
         b = fuzz_bin(cfg)
         base = os.path.join(BUILD, "tmp")
@@ -265,7 +266,7 @@ def run_fuzz(ev, tier):
         if os.path.isdir(seeds):
             for f in os.listdir(seeds):
                 shutil.copy(os.path.join(seeds, f), corpus)
-        runs = 150000 if tier == "quick" else 4000000
+        runs = 100000 if tier == "quick" else 3000000
         workers = NCPU
         cmd = [b, corpus, "-runs=%d" % (runs // workers), "-seed=%d" % (seed() * 7 + 1), "-max_len=4096", "-len_control=50", "-artifact_prefix=" + arts + "/",
                "-fork=0", "-workers=%d" % workers, "-jobs=%d" % workers, "-print_final_stats=1", "-rss_limit_mb=2500", "-timeout=60"]
